@@ -147,24 +147,43 @@ def _limits(cpu_s, as_bytes):
     return fn
 
 
-def run_gendrv_one(request, cpu_s=60, as_bytes=4 << 30, wall_s=120):
-    """one request in a fresh process, nothing caught: exit status / signal / CPU time are the observation"""
+def run_gendrv_one(request, cpu_s=60, as_bytes=4 << 30, wall_s=120, mode="one"):
+    """one request in a fresh process, nothing caught: exit status / signal / CPU time of THIS child
+    (os.wait4) are the observation; the wall-clock watchdog only ever yields `timed_out`"""
+    import tempfile
+    import threading
     exe = build.bin_path("gendrv")
     t0 = time.time()
-    p = subprocess.Popen([exe, "one"], stdin=subprocess.PIPE, stdout=subprocess.PIPE, stderr=subprocess.PIPE,
-                         preexec_fn=_limits(cpu_s, as_bytes))
-    timed_out = False
-    try:
-        out, err = p.communicate(json.dumps(request).encode(), timeout=wall_s)
-    except subprocess.TimeoutExpired:
-        p.kill()
-        out, err = p.communicate()
-        timed_out = True
-    wall = time.time() - t0
-    ru = resource.getrusage(resource.RUSAGE_CHILDREN)
-    rc = p.returncode
-    res = {"exit": rc if rc >= 0 else None, "signal": -rc if rc < 0 else None, "wall_s": round(wall, 3), "timed_out": timed_out,
-           "stderr": err.decode("utf-8", "replace")[-600:]}
+    with tempfile.TemporaryFile() as fin, tempfile.TemporaryFile() as fout, tempfile.TemporaryFile() as ferr:
+        fin.write(json.dumps(request).encode())
+        fin.flush()
+        fin.seek(0)
+        p = subprocess.Popen([exe, mode], stdin=fin, stdout=fout, stderr=ferr, preexec_fn=_limits(cpu_s, as_bytes))
+        timed_out = []
+
+        def kill():
+            timed_out.append(True)
+            try:
+                p.kill()
+            except OSError:
+                pass
+        timer = threading.Timer(wall_s, kill)
+        timer.start()
+        try:
+            _, status, ru = os.wait4(p.pid, 0)
+        finally:
+            timer.cancel()
+        p.returncode = 0  # reaped by us
+        wall = time.time() - t0
+        fout.seek(0)
+        ferr.seek(0)
+        out = fout.read()
+        err = ferr.read()
+    sig = os.WTERMSIG(status) if os.WIFSIGNALED(status) else None
+    code = os.WEXITSTATUS(status) if os.WIFEXITED(status) else None
+    res = {"exit": code, "signal": sig, "wall_s": round(wall, 3), "cpu_s": round(ru.ru_utime + ru.ru_stime, 3), "max_rss_kb": ru.ru_maxrss,
+           "timed_out": bool(timed_out), "stderr": err.decode("utf-8", "replace")[-600:], "panic_message": b"panicked at" in err,
+           "stderr_head": err.decode("utf-8", "replace")[:300]}
     try:
         res["response"] = json.loads(out.decode("utf-8", "replace").splitlines()[0]) if out.strip() else None
     except ValueError:
